@@ -26,10 +26,12 @@ def main():
     ap.add_argument("--props")
     ap.add_argument("--tier", default="quick")
     ap.add_argument("--no-suite", action="store_true")
+    ap.add_argument("--no-demo", action="store_true", help="automatic mutants (harness/mutate.py) come without a demonstration script")
+    ap.add_argument("--first-catch", action="store_true", help="stop at the first check that reports a violation")
     a = ap.parse_args()
     d = os.path.abspath(a.seed_dir)
     meta = json.load(open(os.path.join(d, "meta.json")))
-    props = (a.props.split(",") if a.props else [meta["property"]])
+    props = (a.props.split(",") if a.props else (meta.get("props") or [meta["property"]]))
     head = sh("git -C /repo rev-parse HEAD").stdout.strip()
     # a private scratch worktree per invocation (several seed tests may run at once); removed at the end
     global WT
@@ -42,8 +44,9 @@ def main():
         return 2
     res = {"seed": os.path.relpath(d, VERIF), "repo_head": head}
     env = "PYTHONPATH=%s" % WT
-    r = sh("cd %s && %s /venv/bin/python -B %s/demo.py" % (d, env, d))
-    res["demo_on_clean"] = "PASS" if r.returncode == 0 else "FAIL(rc=%d)" % r.returncode
+    if not a.no_demo:
+        r = sh("cd %s && %s /venv/bin/python -B %s/demo.py" % (d, env, d))
+        res["demo_on_clean"] = "PASS" if r.returncode == 0 else "FAIL(rc=%d)" % r.returncode
     r = sh("git -C %s apply %s/patch.diff" % (WT, d))
     res["patch_applies"] = r.returncode == 0
     if r.returncode != 0:
@@ -52,8 +55,9 @@ def main():
         sh("git -C /repo worktree remove --force %s" % WT)
         return 1
     try:
-        r = sh("cd %s && %s /venv/bin/python -B %s/demo.py" % (d, env, d))
-        res["demo_with_patch"] = "FAIL" if r.returncode != 0 else "PASS(unexpected)"
+        if not a.no_demo:
+            r = sh("cd %s && %s /venv/bin/python -B %s/demo.py" % (d, env, d))
+            res["demo_with_patch"] = "FAIL" if r.returncode != 0 else "PASS(unexpected)"
         if not a.no_suite:
             r = sh("cd %s && %s /venv/bin/python -m pytest -q -p no:cacheprovider --timeout=900 2>&1 | tail -1" % (WT, env))
             res["suite_with_patch"] = r.stdout.strip()[-80:]
@@ -63,6 +67,8 @@ def main():
             r = sh("cd %s && VERIF_REPO=%s VERIF_NO_EVIDENCE=1 VERIF_REPLAY_DIR=replays_mut ./check %s --tier %s" % (VERIF, WT, p, a.tier))
             lines = [l for l in r.stdout.splitlines() if l.startswith(("VIOLATION", "OK ", "KNOWN-FINDING"))]
             res["checks"][p] = {"exit": r.returncode, "verdict": lines[:3], "wall_s": round(time.time() - t0)}
+            if a.first_catch and r.returncode == 1:
+                break
     finally:
         sh("git -C /repo worktree remove --force %s" % WT)
     meta["confirmed_by_coordinator"] = res
